@@ -11,8 +11,10 @@
   to itself (`fitLoop_outOfFuel_exact`, `fitLoop_terminates`, `replaceStep_not_outOfFuel`); the
   failure classes of `replaceStep` (`replaceStep_failures`); `replaceStep` *returns* for every
   deletion (`delete_total`, `deleteRange_total`) and for every closed slice of leaf / text nodes
-  (`insertInline_total`) on a valid document.  For other slices that the run does not raise is not
-  proved (`fit_no_internal_partial` says what is); every other Fitter theorem assumes `.ok`.
+  (`insertInline_total`) on a valid document, and — last section, `fit_no_raise` — for **every** slice, of any
+  open depths, that satisfies two static decidable guards (`Slice.openPrefixOk`: the two raise sites of
+  `place_nodes`; `Slice.stableOk`: `open_start` never goes stale), with kernel-checked examples that the model
+  (and the real code) raises where a guard fails.
   Helpers: Proofs/Respects.lean, RangeOps.lean, Fitter.lean, FitterText.lean, FitRaises.lean,
   FitMeasure.lean, FitScan.lean, FitTerm.lean, FitLoop.lean, FitTotal.lean, FitDelete.lean, FitInline.lean,
   FitInv.lean (well-formedness of the emitted step, last section but one), FillOrder.lean.
@@ -900,7 +902,8 @@ example :
 
 /-! ### no internal outcome, the general corollary (partial)
 
-FULL STATEMENTS AIMED AT (not proved in general):
+(Proved since, under static guards on the slice: `fit_no_raise`, last section of this file.)
+FULL STATEMENTS AIMED AT when this section was written:
 
 `fit_no_internal` : `detB S → C01.Valid S doc → f ≤ t ≤ size doc → sl.wf → sl.noPartialNode S →
   (slice nodes schema-valid) → replaceStep S doc f t sl ≠ .error .raises ∧ ≠ .error .negInsert`
@@ -1237,7 +1240,9 @@ PROVED (this section):
   `fit_emits_wf` and `leafOkB`, `textStableC`, `closableB`: no hypothesis on the Fitter's state (Proofs/FitOpen.lean:
   `VInv` is invariant under `place_nodes` for open slices as well, and the unplaced slice stays loosely valid, `UInv`).
 
-FULL STATEMENT STILL AIMED AT (not proved):
+FULL STATEMENT AIMED AT when this section was written (proved since — with the guards `openPrefixOk` and `stableOk` in
+the place of `noPartialNode`, which does not cover every suffix of the children nor the stale `open_start` — as
+`fit_no_raise`, last section of this file):
 `fit_no_raise` : … `→ sl.noPartialNode S → replaceStep S doc f t sl ≠ .error .raises`, and with
   `fitLoop_terminates` the total `replaceStep_total`.  The raise sites of the loop: `content_match_at(child_count)` on the
   node `place_nodes` re-opens (the partial-node finding), `fill_before` answering `None` inside `close_node_start`, and
